@@ -21,7 +21,7 @@ FUNCTIONS = ['SplineOptimizer::evaluate (3-cost, 2-cost)', 'calculateIntegralCos
 OUTSIDE = ['N above the caps', 'K other than listed', 'DIM 4', 'functors that depend on the local time argument']
 HARD_TIMEOUT = {'quick': 1200, 'thorough': 3600}
 
-FLAGSETS_Q = [0b11111111, 0, 0b00010001, 0b01100110, 0b10011001]
+FLAGSETS_Q = X.PAIRWISE   # all value combinations of every PAIR of flags
 
 
 def cfg(tier):
@@ -33,7 +33,7 @@ def cfg(tier):
 def bounds(tier):
     c = cfg(tier)
     return {'T-all (durations symbolic through the cut, everything symbolic)': 'N in %s per order, DIM %s, K %s' % (c['tall'], list(c['dims']), list(c['K'])),
-            'T-grid (time variables concrete rationals)': 'N in %s' % (c['tgrid'],), 'flag settings': len(c['flags']), 'K=64': 'N=1, DIM 1, T-grid',
+            'T-grid (time variables concrete rationals)': 'N in %s' % (c['tgrid'],), 'flag settings': '%d (quick: pairwise covering array over the 8 flags; thorough: all 256)' % len(c['flags']), 'K=64': 'N=1, DIM 1, T-grid',
             'maps': 'QuadInv + identity spatial; identity time map; user maps on (order, DIM) %s' % [list(x) for x in c['gen']], 'energy weight': 'symbolic > 0 / literal 0 / symbolic <= 0', 'overloads': '3-cost, 2-cost'}
 
 
